@@ -114,9 +114,33 @@ def make_scenario(mod, prop, verif_seed, index, tier):
     return sc
 
 
+def _raised_inside_library(exc) -> str:
+    """Name of the library function an escaping exception was raised in, or '' if it was raised by harness code."""
+    repo = os.path.realpath(os.environ.get("VERIF_REPO", "/repo"))
+    tb = exc.__traceback__
+    last = None
+    while tb is not None:
+        last = tb
+        tb = tb.tb_next
+    if last is None:
+        return ""
+    fn = os.path.realpath(last.tb_frame.f_code.co_filename)
+    if fn.startswith(os.path.join(repo, "speckit") + os.sep):
+        return f"{os.path.basename(fn)}:{last.tb_frame.f_code.co_name}"
+    return ""
+
+
 def run_scenario(mod, sc):
     out = Outcome()
-    mod.execute(sc, out)
+    try:
+        mod.execute(sc, out)
+    except Exception as e:  # noqa: BLE001
+        # An exception that a check's oracle did not anticipate: if it was raised by the library itself (innermost
+        # frame inside speckit/) on a call the scenario makes, that is the library failing, not the harness.
+        where = _raised_inside_library(e)
+        if not where or type(e).__name__ in ("HarnessError", "SimDeadlock"):
+            raise
+        out.violate("exception", f"unhandled:{where}", f"{type(e).__name__}: {str(e)[:200]}")
     return out
 
 
